@@ -32,10 +32,60 @@ import (
 )
 
 type run struct {
-	tr   int64
-	unit int64
-	base int64
-	clk  *hx.VClock
+	tr        int64
+	unit      int64
+	base      int64
+	clk       *hx.VClock
+	cur       []*flow.Rule // the rule list last loaded (in order)
+	reloaded  bool
+	lastAdmit int64 // absolute ms of the last admitted token
+}
+
+// buildRules turns the rule descriptions of a scenario into flow rules and into their trace form.
+func (r *run) buildRules(l []interface{}, defIv int64) (rules []*flow.Rule, out []hx.M) {
+	for i, x := range l {
+		m := x.(map[string]interface{})
+		res, ref := hx.Int(m, "res"), hx.Int(m, "ref")
+		num, den := hx.Int(m, "num"), hx.Int(m, "den")
+		iv := hx.Int(m, "I") * r.unit
+		fr := &flow.Rule{
+			ID:                     strconv.Itoa(i + 1),
+			Resource:               r.name(res),
+			TokenCalculateStrategy: flow.Direct,
+			ControlBehavior:        flow.Reject,
+			Threshold:              float64(num) / float64(den),
+			StatIntervalInMs:       uint32(iv),
+		}
+		if ref != 0 {
+			fr.RelationStrategy = flow.AssociatedResource
+			fr.RefResource = r.name(ref)
+		}
+		rules = append(rules, fr)
+		eff := iv
+		if eff == 0 {
+			eff = defIv
+		}
+		out = append(out, hx.M{"res": res, "num": num, "den": den, "I": eff, "ref": ref, "bl": hx.Int(m, "bl") * r.unit})
+	}
+	return
+}
+
+// ruleIndex identifies the triggered rule in the list in force.  Rule equality in the library ignores the ID, so after a
+// reload a kept controller reports the ID its rule had in an EARLIER list: match by the semantic fields then.
+func (r *run) ruleIndex(fr *flow.Rule) int64 {
+	if !r.reloaded {
+		if n, err := strconv.ParseInt(fr.ID, 10, 64); err == nil {
+			return n
+		}
+		return 0
+	}
+	for i, c := range r.cur {
+		if c.Resource == fr.Resource && c.Threshold == fr.Threshold && c.StatIntervalInMs == fr.StatIntervalInMs &&
+			c.RelationStrategy == fr.RelationStrategy && c.RefResource == fr.RefResource {
+			return int64(i + 1)
+		}
+	}
+	return 0
 }
 
 func (r *run) name(res int64) string { return fmt.Sprintf("c02_%d_r%d", r.tr, res) }
@@ -72,6 +122,8 @@ type outcome struct {
 }
 
 // entry performs one api.Entry and decodes the observables of a rejection.
+var curRun *run
+
 func entry(name string, b uint32) (o outcome) {
 	defer func() {
 		if e := recover(); e != nil {
@@ -90,9 +142,7 @@ func entry(name string, b uint32) (o outcome) {
 		o.bt = "isolation"
 	}
 	if fr, ok := berr.TriggeredRule().(*flow.Rule); ok && fr != nil {
-		if n, err := strconv.ParseInt(fr.ID, 10, 64); err == nil {
-			o.rule = n
-		}
+		o.rule = curRun.ruleIndex(fr)
 	}
 	o.val = -1
 	switch v := berr.TriggeredValue().(type) {
@@ -131,7 +181,7 @@ func main() {
 	defer tr.Close()
 	defIv := int64(config.MetricStatisticIntervalMs())
 	var r *run
-	for _, s := range scn {
+	for si, s := range scn {
 		op := hx.Str(s, "op")
 		if op != "new" && r == nil {
 			hx.Fatal("scenario does not start with new")
@@ -139,15 +189,29 @@ func main() {
 		switch op {
 		case "new":
 			r = &run{tr: hx.Int(s, "tr"), unit: hx.Int(s, "unit"), clk: clk}
+			curRun = r
 			if r.unit == 0 {
 				r.unit = 1
 			}
 			// align the base with every interval in play: whatever bucket length (a divisor of the interval) the
 			// library picks, alignment of relative and absolute times then agree
 			align := lcm(1000, defIv)
-			for _, x := range list(s, "rules") {
+			maxI := defIv
+			all := append([]interface{}{}, list(s, "rules")...)
+			for _, later := range scn[si+1:] { // rule lists loaded later in this trace
+				if hx.Str(later, "op") == "new" {
+					break
+				}
+				if hx.Str(later, "op") == "reload" {
+					all = append(all, list(later, "rules")...)
+				}
+			}
+			for _, x := range all {
 				if iv := hx.Int(x.(map[string]interface{}), "I") * r.unit; iv > 0 {
 					align = lcm(align, iv)
+					if iv > maxI {
+						maxI = iv
+					}
 				}
 			}
 			r.base = hx.BaseMs(align)
@@ -156,44 +220,47 @@ func main() {
 			if err := flow.ClearRules(); err != nil {
 				hx.Fatal("ClearRules: %v", err)
 			}
-			var rules []*flow.Rule
-			var out []hx.M
-			for i, x := range list(s, "rules") {
-				m := x.(map[string]interface{})
-				res, ref := hx.Int(m, "res"), hx.Int(m, "ref")
-				num, den := hx.Int(m, "num"), hx.Int(m, "den")
-				iv := hx.Int(m, "I") * r.unit
-				fr := &flow.Rule{
-					ID:                     strconv.Itoa(i + 1),
-					Resource:               r.name(res),
-					TokenCalculateStrategy: flow.Direct,
-					ControlBehavior:        flow.Reject,
-					Threshold:              float64(num) / float64(den),
-					StatIntervalInMs:       uint32(iv),
-				}
-				if ref != 0 {
-					fr.RelationStrategy = flow.AssociatedResource
-					fr.RefResource = r.name(ref)
-				}
-				rules = append(rules, fr)
-				eff := iv
-				if eff == 0 {
-					eff = defIv
-				}
-				out = append(out, hx.M{"res": res, "num": num, "den": den, "I": eff, "ref": ref, "bl": hx.Int(m, "bl") * r.unit})
-			}
+			rules, out := r.buildRules(list(s, "rules"), defIv)
 			if _, err := flow.LoadRules(rules); err != nil {
 				hx.Fatal("LoadRules: %v", err)
 			}
 			if got := len(flow.GetRules()); got != len(rules) {
 				hx.Fatal("trace %d: %d of %d rules in force", r.tr, got, len(rules))
 			}
-			tr.Emit(hx.M{"op": "new", "tr": r.tr, "t": t0, "nres": hx.Int(s, "nres"), "rules": out})
+			r.cur = rules
+			tr.Emit(hx.M{"op": "new", "tr": r.tr, "t": t0, "nres": hx.Int(s, "nres"), "rules": out, "maxI": maxI})
+		case "reload":
+			// the rule list is replaced while the statistics hold traffic: whole set, or only the rules of one resource
+			if r.clk.NowMs() == r.lastAdmit {
+				hx.Fatal("trace %d: reload in the millisecond of an admitted token", r.tr)
+			}
+			rules, out := r.buildRules(list(s, "rules"), defIv)
+			if per := hx.Int(s, "per"); per > 0 {
+				var sub []*flow.Rule
+				for _, fr := range rules {
+					if fr.Resource == r.name(per) {
+						sub = append(sub, fr)
+					}
+				}
+				if _, err := flow.LoadRulesOfResource(r.name(per), sub); err != nil {
+					hx.Fatal("LoadRulesOfResource: %v", err)
+				}
+			} else if _, err := flow.LoadRules(rules); err != nil {
+				hx.Fatal("LoadRules: %v", err)
+			}
+			if got := len(flow.GetRules()); got != len(rules) {
+				hx.Fatal("trace %d: %d of %d rules in force after the reload", r.tr, got, len(rules))
+			}
+			r.cur, r.reloaded = rules, true
+			tr.Emit(hx.M{"op": "reload", "t": r.rel(), "rules": out})
 		case "req":
 			res, b := hx.Int(s, "res"), hx.Int(s, "b")
 			o := entry(r.name(res), uint32(b))
 			if o.entry != nil {
 				o.entry.Exit()
+				if b > 0 {
+					r.lastAdmit = r.clk.NowMs()
+				}
 			}
 			tr.Emit(o.rec(hx.M{"op": "req", "res": res, "b": b}))
 		case "tick":
@@ -226,6 +293,7 @@ func main() {
 				oks[i] = o.ok
 				if o.entry != nil {
 					o.entry.Exit()
+					r.lastAdmit = r.clk.NowMs()
 				}
 			}
 			tr.Emit(hx.M{"op": "conc", "res": res, "bs": bs, "sched": sched, "oks": oks, "points": points})
